@@ -45,6 +45,15 @@ def scen_spec(name):
     # keep the lanelet goal consistent with the shifted lanelet
     sp["pps"][0]["goal"]["states"][1]["attrs"]["position"] = speclib.lanelet_goal_shape(sp, [2])
     if name == "s2":
+        # s2 leaves optional data at the constructor defaults where s1 sets it: a lanelet without type, users and markings, initial states without
+        # acceleration (a writer that completes its input in place would leak into later files)
+        l3 = speclib.find(sp, "lanelets", 3)
+        for k in ("types", "users_bidirectional", "mark_left", "mark_right"):
+            l3.pop(k, None)
+        for o in sp["obstacles"]:
+            if "initial_state" in o:
+                o["initial_state"]["attrs"].pop("acceleration", None)
+        sp["pps"][0]["initial_state"]["attrs"].pop("acceleration", None)
         sp["obstacles"] = [o for o in sp["obstacles"] if o["id"] != 33]
         sp["sid"] = {"country": "DEU", "map": "Other", "map_id": 2, "conf": 1, "beh": "T", "pred": 1}
         sp["pps"][0]["initial_state"]["attrs"]["velocity"] = 7.0123456789012
